@@ -10,6 +10,8 @@ Driver requests of property C07 (whole runs and phase tables).
                       (σ is the state `random.seed(s)` installs, for the seed of this command line)
       answer: `OK T <#graph draws consumed> <#formula draws consumed> <code points of the text>` or
               `OK E <outcome>`
+  shufflerun <argv> <stdin text> <input name> <base header> <rng₀ draws> <σ draws>      (draw format of Driver/Shuffle)
+      answer: `OK T <#draws consumed> <code points of the text>` or `OK E <outcome>`
   phasetrace <tool> <hasSeed> <seed> <parseDraws> <buildDraws> <transDraws> <shuffleDraws>
       answer: the generator events an observer sees (P( seed other draws )P …)
   seededgraph <which> <hasSeed> <seed> <args…> <pre draws> <post draws>      (draw format of Driver/GraphBuild)
@@ -25,6 +27,8 @@ import CnfgenModel.Driver.GraphBuild
 import CnfgenModel.Driver.Rand
 import CnfgenModel.Cli.Run
 import CnfgenModel.Rand.Seeded
+import CnfgenModel.Cli.RunShuffle
+import CnfgenModel.Driver.Shuffle
 namespace Cnfgen.Driver.CliRun
 open Cnfgen Cnfgen.Driver Cnfgen.Cli Cnfgen.CliRun Cnfgen.GenPh
 
@@ -78,6 +82,16 @@ def handle (opname : String) (a : Args) : Option String :=
       let r0 ← rng
       let rs ← rng
       pure (fmtOutcome (toolRun tool (fun _ => rs) w argv r0))) a
+  | "shufflerun" => run (do
+      let argv ← listOf str
+      let stdin ← str
+      let name ← str
+      let base ← listOf (do let k ← str; let v ← str; pure (k, v))
+      let r0 ← listOf Shuffle.drawP
+      let rs ← listOf Shuffle.drawP
+      pure (match shuffleRun (fun _ => rs) ⟨name, base⟩ argv stdin r0 with
+        | (.text s, u) => ok ("T " ++ toString u ++ " " ++ fmtInts (intsOfStr s))
+        | (o, _) => fmtOutcome (o, 0, 0))) a
   | "phasetrace" => run (do
       let tool ← str; let has ← bool; let s ← int
       let p ← nat; let b ← nat; let t ← nat; let sh ← nat
